@@ -514,15 +514,6 @@ example : call1 (cfgOf true false false false false false true) '/' exTree 5 (pa
 
 /-! ## tree-to-tree: the source tree is untouched -/
 
-theorem loop_src {cfg st ps st'} (h : loop cfg st ps = .ok st') : st'.src = st.src := by
-  induction ps generalizing st with
-  | nil => simp [loop] at h; rw [h]
-  | cons p ps ih =>
-    simp only [loop] at h
-    cases hs : step cfg st p with
-    | error e => rw [hs] at h; simp at h
-    | ok st1 => rw [hs] at h; rw [ih h, (step_name hs).2]
-
 /-- For every flag combination and every pair list: a successful `copy_or_shift_logic` call
 returns with the source tree (`tree` when `to_tree` is another tree) exactly as it was. -/
 theorem source_untouched (cfg : Cfg) (st : St) (ps : List (Str × Option Str)) {st' : St}
